@@ -204,13 +204,14 @@ func (s *subscriberImpl[T]) NextWithContext(ctx context.Context, v T) {
 		s.mu.Lock()
 	}
 
+	// deferred: the destination may be an Observer of the caller's own, whose Next nothing recovers
+	defer s.mu.Unlock()
+
 	if atomic.LoadInt32(&s.status) == 0 {
 		s.destination.NextWithContext(ctx, v)
 	} else {
 		OnDroppedNotification(ctx, NewNotificationNext(v))
 	}
-
-	s.mu.Unlock()
 }
 
 // Implements Observer.
